@@ -51,6 +51,29 @@ def variants(rng, s):
     return out
 
 
+def w_hex_slab(r):
+    """all 65,536 six-digit hex strings with red = r, in three spellings: exact value expected"""
+    import sys, os
+    from common import repo_import
+    sys.stdout = open(os.devnull, "w")
+    repo_import()
+    from cm_colors.core.color_parser import parse_color_to_rgb
+    bad = []
+    n = 0
+    for g in range(256):
+        for b in range(256):
+            s = "%02x%02x%02x" % (r, g, b)
+            for v in ("#" + s, s.upper(), "#" + s[:3].upper() + s[3:]):
+                n += 1
+                try:
+                    got = tuple(parse_color_to_rgb(v))
+                except Exception as e:  # noqa
+                    got = type(e).__name__
+                if got != (r, g, b):
+                    bad.append((v, got))
+    return n, bad[:5], len(bad)
+
+
 def check(run):
     run.proof = proof_status("C07", regenerate=regen)
     q = run.quick()
@@ -88,6 +111,18 @@ def check(run):
     for _ in range(2000):
         c = tuple(run.rng.randrange(256) for _ in range(3))
         cases.append((c if run.rng.random() < 0.5 else list(c), None, "tuple"))
+    if not q:
+        # exhaustive: every six-digit hex string (lower-case with '#', upper-case bare, mixed case)
+        import multiprocessing as mp
+        with mp.get_context("fork").Pool(16) as hp:
+            hres = hp.map(w_hex_slab, range(256))
+        run.evaluations += sum(x[0] for x in hres)
+        run.distinct_bulk += sum(x[0] for x in hres)
+        run.extra["hex6_exhaustive"] = {"strings": sum(x[0] for x in hres), "wrong": sum(x[2] for x in hres)}
+        run.exhaustive = True
+        for _n, bads, _c in hres:
+            for v, got in bads[:2]:
+                run.violation("a six-digit hex colour does not parse to the colour it denotes", {"value": repr(v), "background": None}, got=got)
     fm = run_lines([valenc.parse_line(v, b) for v, b, _ in cases], chunks=16)
     strs = [(i, c) for i, c in enumerate(cases) if isinstance(c[0], str)]
     qm = run_lines([valenc.parse_line(v, b).replace("parse", "parseq", 1) for _, (v, b, _) in strs], chunks=16)
